@@ -51,16 +51,32 @@ Proof.
   destruct g as [|n| |n|k]; [congruence| | | |]; cbn [apply_sig brk_walk kill_top cont_up kill_all map].
   - destruct (name_eqb (f_name f) n); reflexivity.
   - reflexivity.
-  - destruct (name_eqb (f_name f) n); cbn; [apply andb_false_r|].
-    destruct st; cbn; [apply andb_false_r|reflexivity].
+  - destruct (name_eqb (f_name f) n); cbn.
+    + unfold frame_live. cbn. rewrite andb_false_r. reflexivity.
+    + destruct st; cbn; [unfold frame_live; cbn; rewrite andb_false_r|]; reflexivity.
+  - reflexivity.
+Qed.
+
+(* ... and leaves in it the exit number the cancelled statements of its block keep *)
+Lemma signal_top_exit : forall g st, st <> [] -> all_live st = true -> g <> SNone ->
+  top_exit (apply_sig g st) = sig_exit g.
+Proof.
+  intros g [|f st] Hne L Hg; [congruence|].
+  cbn in L. apply andb_true_iff in L as [L _]. unfold frame_live in L.
+  apply andb_true_iff in L as [_ L]. apply Z.eqb_eq in L.
+  destruct g as [|n| |n|k]; [congruence| | | |]; cbn [apply_sig brk_walk kill_top cont_up kill_all map sig_exit].
+  - destruct (name_eqb (f_name f) n); reflexivity.
+  - reflexivity.
+  - destruct (name_eqb (f_name f) n); cbn; [exact L|]. destruct st; cbn; [exact L|reflexivity].
   - reflexivity.
 Qed.
 
 Lemma all_live_top : forall st, st <> [] -> all_live st = true -> top_live st = true.
 Proof. intros [|f st] H L; [congruence|]. cbn in *. apply andb_true_iff in L as [L _]. exact L. Qed.
 
-Lemma skipped_block : forall b tm e c x, top_live (c_stack c) = false -> exec_block tm e b c x = (c, x).
-Proof. intros [|s b] tm e c x H; cbn [exec_block]; [reflexivity|]. rewrite H. reflexivity. Qed.
+Lemma skipped_block : forall b tm e c x, b <> BNil -> top_live (c_stack c) = false ->
+  exec_block tm e b c x = (c, top_exit (c_stack c)).
+Proof. intros [|s b] tm e c x N H; cbn [exec_block]; [congruence|]. rewrite H. reflexivity. Qed.
 
 Lemma cancelled_loop : forall body sf k i c, top_cancelled (c_stack c) = true -> cancel_loop body sf k i c = c.
 Proof. intros body sf [|k] i c H; cbn [cancel_loop]; [reflexivity|]. rewrite H. reflexivity. Qed.
@@ -90,7 +106,7 @@ Section Loop.
     - cbn [c_stack top_cancelled]. rewrite HC. unfold renew_top. cbn [c_stack c_out c_exit].
       set (F' := fresh_iteration F).
       assert (HL' : all_live (F' :: st) = true).
-      { cbn. unfold frame_live. cbn. rewrite HC. cbn. exact HL. }
+      { cbn. unfold frame_live. cbn. rewrite HC, HX. cbn. exact HL. }
       assert (HM' : map f_name (F' :: st) = nm :: encl).
       { cbn. rewrite HN, HM. reflexivity. }
       rewrite (Hbody i (F' :: st) o x HL' HM').
@@ -157,6 +173,22 @@ Proof. intros [|f st] [|a encl] H N; try congruence; discriminate. Qed.
 Lemma names_ne : forall encl : list (name * bool), encl <> [] -> names encl <> [].
 Proof. intros [|a l] H; [congruence|discriminate]. Qed.
 
+(* after a statement that raised a signal: the rest of the block is skipped *)
+Lemma after_signal : forall g tm e b st o1 o x xs, st <> [] -> all_live st = true -> g <> SNone ->
+  (if tm && failed xs && nonnil b then (mk (apply_sig g st) (o ++ o1) (exit_sig g x), xs)
+   else exec_block tm e b (mk (apply_sig g st) (o ++ o1) (exit_sig g x)) xs) =
+  (let r := if nonnil b && negb (tm && failed xs) then (o1, g, sig_exit g) else (o1, g, xs) in
+   (mk (apply_sig (snd (fst r)) st) (o ++ fst (fst r)) (exit_sig (snd (fst r)) x), snd r)).
+Proof.
+  intros g tm e b st o1 o x xs NS L Hg. cbv zeta.
+  destruct b as [|s b].
+  - cbn [nonnil andb]. rewrite andb_false_r. reflexivity.
+  - cbn [nonnil]. rewrite andb_true_r. cbn [andb]. destruct (tm && failed xs); cbn [negb fst snd].
+    + reflexivity.
+    + rewrite skipped_block; [| discriminate | cbn [c_stack]; apply signal_kills_top; assumption].
+      cbn [c_stack]. rewrite signal_top_exit by assumption. reflexivity.
+Qed.
+
 Lemma refines_all : (forall s, stmt_refines s) /\ (forall b, block_refines b).
 Proof.
   apply stmt_block_mutind; unfold stmt_refines, block_refines.
@@ -192,10 +224,10 @@ Proof.
     destruct (ref_block true e b 0%Z) as [[o1 g] xb]. cbn [fst snd]. unfold pop. cbn [c_stack c_out c_exit].
     rewrite pop_apply, exit_absorb. reflexivity.
   - (* Call *) intros f b IH tm e encl st o x L M NE W. cbn [exec_stmt ref_stmt wn_stmt] in *.
+    apply andb_true_iff in W as [W _].
     rewrite (IH false [] [(NFunc f, false)] [new_frame (NFunc f)] [] 0%Z 0%Z); [| reflexivity | reflexivity | discriminate | exact W].
     destruct (ref_block false [] b 0%Z) as [[o1 g] xb]. cbn [fst snd c_stack c_out c_exit app].
-    assert (E : exit_sig g 0%Z = match g with SRet k => k | _ => 0%Z end) by (destruct g; reflexivity).
-    rewrite E. destruct (tm && failed match g with SRet k => k | _ => 0%Z end); reflexivity.
+    destruct (tm && failed xb); reflexivity.
   - (* Break *) intros nm tm e encl st o x L M NE W. cbn. rewrite app_nil_r. reflexivity.
   - (* BreakAny *) intros tm e encl st o x L M NE W. cbn. rewrite app_nil_r. reflexivity.
   - (* Continue *) intros nm tm e encl st o x L M NE W.
@@ -203,7 +235,7 @@ Proof.
     rewrite app_nil_r.
     destruct encl as [|[x0 w0] [|a1 encl]]; try discriminate.
     destruct st as [|F [|G st]]; cbn in M; try discriminate.
-    inversion M as [[M1 M2 M3]]. apply andb_true_iff in W as [W _]. apply negb_true_iff in W.
+    inversion M as [[M1 M2 M3]]. apply andb_true_iff in W as [W _]. apply andb_true_iff in W as [W _]. apply negb_true_iff in W.
     unfold cont_walk. cbn [cont_up]. rewrite M1, W. reflexivity.
   - (* Return *) intros k tm e encl st o x L M NE W. cbn. rewrite app_nil_r. reflexivity.
   - (* BNil *) intros tm e encl st o x xp L M NE W. cbn. rewrite app_nil_r. reflexivity.
@@ -218,23 +250,19 @@ Proof.
       * reflexivity.
       * rewrite (IHb tm e encl st (o ++ o1) x xs L M NE Wb).
         destruct (ref_block tm e b xs) as [[o2 g2] x2]. cbn [fst snd]. rewrite app_assoc. reflexivity.
-    + destruct (tm && failed xs && nonnil b); [reflexivity|].
-      apply skipped_block. cbn [c_stack]. apply signal_kills_top; [exact NS|discriminate].
-    + destruct (tm && failed xs && nonnil b); [reflexivity|].
-      apply skipped_block. cbn [c_stack]. apply signal_kills_top; [exact NS|discriminate].
-    + destruct (tm && failed xs && nonnil b); [reflexivity|].
-      apply skipped_block. cbn [c_stack]. apply signal_kills_top; [exact NS|discriminate].
-    + destruct (tm && failed xs && nonnil b); [reflexivity|].
-      apply skipped_block. cbn [c_stack]. apply signal_kills_top; [exact NS|discriminate].
+    + apply (after_signal (SBrk n)); auto; discriminate.
+    + apply (after_signal SBrkAny); auto; discriminate.
+    + apply (after_signal (SCont n)); auto; discriminate.
+    + apply (after_signal (SRet k)); auto; discriminate.
 Qed.
 
 (* THE REFINEMENT *)
 Theorem cancel_refines_signals : forall main, well_named main = true -> run_cancel main = run_ref main.
 Proof.
-  intros main W. unfold run_cancel, run_ref, well_named in *.
+  intros main W. unfold run_cancel, run_ref, well_named in *. apply andb_true_iff in W as [W _].
   destruct refines_all as [_ HB].
   rewrite (HB main false [] [(NFunc 0, false)] [new_frame (NFunc 0)] [] 0%Z 0%Z); [| reflexivity | reflexivity | discriminate | exact W].
-  destruct (ref_block false [] main 0%Z) as [[o g] xb]. cbn [fst snd c_out c_exit app exit_sig]. destruct g; reflexivity.
+  destruct (ref_block false [] main 0%Z) as [[o g] xb]. reflexivity.
 Qed.
 
 (* ---- corollaries ---- *)
@@ -243,11 +271,13 @@ Proof. intros []; cbn; auto. apply N.eqb_refl. Qed.
 
 (* break: nothing after it in its block runs, and exactly the frames up to the named one die *)
 Theorem break_stops_rest_of_block : forall tm e nm rest st o x xp, st <> [] -> all_live st = true ->
-  exec_block tm e (BCons (Break nm) rest) (mk st o x) xp = (mk (brk_walk nm st) o x, 0%Z).
+  fst (exec_block tm e (BCons (Break nm) rest) (mk st o x) xp) = mk (brk_walk nm st) o x.
 Proof.
   intros tm e nm rest st o x xp NS L. cbn [exec_block c_stack]. rewrite (all_live_top st NS L).
   cbn [exec_stmt c_stack c_out c_exit]. change (failed 0) with false. rewrite andb_false_r. cbn [andb].
-  apply skipped_block. cbn [c_stack]. apply (signal_kills_top (SBrk nm) st NS). discriminate.
+  destruct rest as [|s rest]; [reflexivity|].
+  rewrite skipped_block; [reflexivity|discriminate|].
+  cbn [c_stack]. apply (signal_kills_top (SBrk nm) st NS). discriminate.
 Qed.
 
 (* `break` without a name ends the innermost block only *)
@@ -290,21 +320,63 @@ Proof.
   destruct (ref_loop body nm false k (i + 1)); reflexivity.
 Qed.
 
+(* a block that ends by `return k` - written at any nesting depth, as the last statement or not,
+   in any run mode - has exit number k *)
+Lemma ret_exit_all :
+  (forall s tm e o k x, ref_stmt tm e s = (o, SRet k, x) -> x = k) /\
+  (forall b tm e xp o k x, ref_block tm e b xp = (o, SRet k, x) -> x = k).
+Proof.
+  apply stmt_block_mutind.
+  - intros t tm e o k x H. discriminate.
+  - intros kd c b IHb d IHd tm e o k x H. cbn [ref_stmt] in H.
+    destruct (ref_block tm e (if eval e c then b else d) 0%Z) as [[o1 g] xb].
+    injection H as H1 H2 H3. rewrite H2 in H3. cbn in H3. congruence.
+  - intros kd id n b IH tm e o k x H. cbn [ref_stmt] in H.
+    destruct (ref_loop _ _ _ n 1) as [o1 g]. injection H as H1 H2 H3. subst g. cbn in H3. congruence.
+  - intros pipe b IH tm e o k x H. cbn [ref_stmt] in H.
+    destruct (ref_block true e b 0%Z) as [[o1 g] xb] eqn:E. inversion H as [[H1 H2 H3]]. subst.
+    destruct g as [|n| |n|k']; cbn [absorb] in H2; try discriminate;
+      try (destruct (name_eqb (try_name pipe) n); discriminate).
+    inversion H2; subst. eapply IH. exact E.
+  - intros f b IH tm e o k x H. cbn [ref_stmt] in H.
+    destruct (ref_block false [] b 0%Z) as [[o1 g] xb]. destruct (tm && failed xb); discriminate.
+  - intros nm tm e o k x H. discriminate.
+  - intros tm e o k x H. discriminate.
+  - intros nm tm e o k x H. discriminate.
+  - intros k0 tm e o k x H. inversion H. reflexivity.
+  - intros tm e xp o k x H. discriminate.
+  - intros s IHs b IHb tm e xp o k x H. cbn [ref_block] in H.
+    destruct (ref_stmt tm e s) as [[o1 g] xs] eqn:E.
+    destruct g as [|n| |n|k'].
+    + destruct (tm && failed xs && nonnil b); [discriminate|].
+      destruct (ref_block tm e b xs) as [[o2 g2] x2] eqn:E2. inversion H; subst. eapply IHb. exact E2.
+    + destruct (nonnil b && negb (tm && failed xs)); discriminate.
+    + destruct (nonnil b && negb (tm && failed xs)); discriminate.
+    + destruct (nonnil b && negb (tm && failed xs)); discriminate.
+    + pose proof (IHs tm e o1 k' xs E) as X. subst xs.
+      destruct (nonnil b && negb (tm && failed k')); inversion H; reflexivity.
+Qed.
+
 (* return n: the program / the function call reports exit number n *)
 Theorem return_sets_exit : forall main o k x, well_named main = true ->
   ref_block false [] main 0%Z = (o, SRet k, x) -> run_cancel main = (o, k).
 Proof.
-  intros main o k x W H. rewrite (cancel_refines_signals main W). unfold run_ref. rewrite H. reflexivity.
+  intros main o k x W H. rewrite (cancel_refines_signals main W). unfold run_ref. rewrite H.
+  destruct ret_exit_all as [_ R]. rewrite (R _ _ _ _ _ _ _ H). reflexivity.
 Qed.
 
+(* ... wherever the `return n` is written in the function: directly in its body or at any nesting
+   depth, also when the block that holds it is the last statement of the function *)
 Theorem return_sets_call_exit : forall e f b encl st o x o1 k xb,
-  all_live st = true -> map f_name st = names encl -> encl <> [] -> wn_block [(NFunc f, false)] b = true ->
+  all_live st = true -> map f_name st = names encl -> encl <> [] ->
+  wn_stmt encl (Call f b) = true ->
   ref_block false [] b 0%Z = (o1, SRet k, xb) ->
   exec_stmt false e (Call f b) (mk st o x) = (mk st (o ++ o1 ++ [TExit k]) x, 0%Z).
 Proof.
   intros e f b encl st o x o1 k xb L M NE W H.
-  destruct refines_all as [HS _].
-  rewrite (HS (Call f b) false e encl st o x L M NE W). cbn [ref_stmt]. rewrite H. reflexivity.
+  destruct refines_all as [HS _]. destruct ret_exit_all as [_ R].
+  rewrite (HS (Call f b) false e encl st o x L M NE W). cbn [ref_stmt]. rewrite H.
+  rewrite (R _ _ _ _ _ _ _ H). reflexivity.
 Qed.
 
 (* code outside the named block carries on: a statement that ends without a signal for its
@@ -340,11 +412,11 @@ Proof.
 Qed.
 
 (* try: a call that returns a non-zero number ends the try block (as documented) - and only it *)
-Theorem failed_call_ends_try_block : forall e f b rest o1 k xb, (0 < k)%Z -> rest <> BNil ->
-  ref_block false [] b 0%Z = (o1, SRet k, xb) ->
+Theorem failed_call_ends_try_block : forall e f b rest o1 g k, (0 < k)%Z -> rest <> BNil ->
+  ref_block false [] b 0%Z = (o1, g, k) ->
   ref_block true e (BCons (Call f b) rest) 0%Z = (o1, SNone, k).
 Proof.
-  intros e f b rest o1 k xb K R H. cbn [ref_block ref_stmt]. rewrite H.
+  intros e f b rest o1 g k K R H. cbn [ref_block ref_stmt]. rewrite H.
   assert (F : failed k = true) by (unfold failed; apply Z.ltb_lt; exact K).
   rewrite F. cbn [andb]. rewrite F. destruct rest; [congruence|reflexivity].
 Qed.
@@ -367,7 +439,8 @@ Theorem break_does_not_cross_function : forall tm e f b st o x,
 Proof.
   intros tm e f b st o x. cbn [exec_stmt ref_stmt].
   destruct (ref_block false [] b 0%Z) as [[o1 g] xb].
-  destruct (tm && failed (c_exit _)); destruct (tm && failed _); repeat split.
+  destruct (exec_block false [] b _ 0%Z) as [r k].
+  destruct (tm && failed k); destruct (tm && failed xb); repeat split.
 Qed.
 
 Theorem unresolved_break_kills_function_only : forall nm st,
